@@ -610,7 +610,12 @@ pub fn reset() {
             r.destroy();
         }
         sim.events.clear();
-        sim.mappings.clear();
+        // Ring mappings a10 still holds at the end of a case belong to objects it leaked (the
+        // components have reported that by now, e.g. the known findings F11/F19): nothing can reach
+        // them any more. Unmap them, or a long run exhausts the kernel's limit on mappings.
+        for (addr, (_, _, len)) in std::mem::take(&mut sim.mappings) {
+            unsafe { raw_syscall(libc::SYS_munmap, addr as i64, len as i64, 0, 0, 0, 0) };
+        }
         sim.unmapped.clear();
         sim.mmap_fail = None;
         sim.madvise_fail = None;
